@@ -72,7 +72,18 @@ func conflictSet(i int64, seed int64) []file {
 	r := prng.For(seed, "C05", "conflict", i)
 	pick := func(xs ...string) string { return xs[r.Intn(len(xs))] }
 	var fs []file
-	switch i % 15 {
+	switch i % 16 {
+	case 15: // two submodules of one module that define an identity (and a typedef, a grouping) of one name; or two revisions of a submodule of which the module includes one, by date or not
+		if r.Intn(2) == 0 {
+			fs = append(fs, file{"sm.yang", "module sm { namespace \"urn:sm\"; prefix sm; include sa; include sb; identity derived { base kind; } leaf ref { type identityref { base kind; } } }"})
+			fs = append(fs, file{"sa.yang", "submodule sa { belongs-to sm { prefix sm; } identity kind; identity froma { base kind; } }"})
+			fs = append(fs, file{"sb.yang", "submodule sb { belongs-to sm { prefix sm; } identity kind; identity fromb { base kind; } }"})
+		} else {
+			fs = append(fs, file{"sm.yang", "module sm { namespace \"urn:sm\"; prefix sm; include s" + pick(";", " { revision-date 2019-01-01; }", " { revision-date 2020-01-01; }") + " include other; identity derived { base kind; } leaf ref { type identityref { base kind; } } leaf t { type st; } }"})
+			fs = append(fs, file{"s@2019-01-01.yang", "submodule s { belongs-to sm { prefix sm; } revision 2019-01-01; identity kind; typedef st { type string; units old; } identity only2019 { base kind; } }"})
+			fs = append(fs, file{"s@2020-01-01.yang", "submodule s { belongs-to sm { prefix sm; } revision 2020-01-01; identity kind; typedef st { type int8; units new; } identity only2020 { base kind; } }"})
+			fs = append(fs, file{"other.yang", "submodule other { belongs-to sm { prefix sm; } leaf viaother { type st; } identity viaother { base kind; } }"})
+		}
 	case 14: // a text given without a source name (positions read "line N:C"), with faults on lines of one, two and three digits
 		var b strings.Builder
 		b.WriteString("module nameless {\n  namespace \"urn:nameless\";\n  prefix nl;\n")
@@ -403,6 +414,7 @@ func Run(j *job.Job, s *job.Sink) {
 // CLI runs the goyang command (built by the driver into params[goyang]) repeatedly with
 // shuffled argument order and compares its output bytes.
 func CLI(j *job.Job, s *job.Sink) {
+	s.IdleExempt = true // this worker waits for child processes; they have a CPU limit of their own
 	bin := j.Params["goyang"]
 	for c := j.Start; c < j.Start+j.Count; c++ {
 		r := prng.For(j.Seed, "C05", "cli", c)
